@@ -2,9 +2,9 @@ package bt
 
 import (
 	"bytes"
-	"encoding/json"
 	"context"
 	"encoding/binary"
+	"encoding/json"
 	"fmt"
 	"io"
 	"os"
@@ -42,6 +42,10 @@ type Server struct {
 	parents map[string]bool
 	last    *Obs
 	Panics  []string
+
+	tokMu    sync.Mutex
+	tokOwner map[string]string // consistency token -> the table name it was first issued for
+	tokens   map[string]string // table name -> the token last issued for it
 }
 
 func storageFor(engine, dir string) bttest.Storage {
@@ -597,6 +601,34 @@ func (s *Server) ExecCtx(parent context.Context, op *Op) {
 	case "DeleteTable":
 		_, err := s.Admin.DeleteTable(ctx, &btapb.DeleteTableRequest{Name: name})
 		r.Code, r.Msg = codeOf(err)
+	case "GenerateToken":
+		t, err := s.Admin.GenerateConsistencyToken(ctx, &btapb.GenerateConsistencyTokenRequest{Name: name})
+		r.Code, r.Msg = codeOf(err)
+		if err == nil {
+			s.tokMu.Lock()
+			if s.tokOwner == nil {
+				s.tokOwner, s.tokens = map[string]string{}, map[string]string{}
+			}
+			if _, seen := s.tokOwner[t.ConsistencyToken]; !seen && t.ConsistencyToken != "" {
+				s.tokOwner[t.ConsistencyToken] = name
+			}
+			s.tokens[name] = t.ConsistencyToken
+			r.TokFor = j.S(s.tokOwner[t.ConsistencyToken]) // an empty token is owned by nobody
+			s.tokMu.Unlock()
+		}
+	case "CheckConsistency":
+		s.tokMu.Lock()
+		tok, have := s.tokens[string(op.TokFor)]
+		s.tokMu.Unlock()
+		if !op.Genuine || !have {
+			op.Genuine = false // no token has been issued for that name in this run: present a made-up one
+			tok = "no-such-token-" + string(op.TokFor)
+		}
+		c, err := s.Admin.CheckConsistency(ctx, &btapb.CheckConsistencyRequest{Name: name, ConsistencyToken: tok})
+		r.Code, r.Msg = codeOf(err)
+		if err == nil {
+			r.Consistent = c.Consistent
+		}
 	case "ModifyFamilies":
 		req := &btapb.ModifyColumnFamiliesRequest{Name: name}
 		for _, m := range op.Mods {
